@@ -17,6 +17,8 @@ import DriverLib.C09
 import DriverLib.C10
 import DriverLib.C13
 import DriverLib.C16
+import DriverLib.C17
+import DriverLib.C18
 open Lean Drv
 
 def handlers : List (String → Json → Option (R Json)) := [
@@ -32,6 +34,8 @@ def handlers : List (String → Json → Option (R Json)) := [
   Drv.C10.handle,
   Drv.C13.handle,
   Drv.C16.handle,
+  Drv.C17.handle,
+  Drv.C18.handle,
   fun _ _ => none]
 
 def dispatch (line : String) : Json :=
